@@ -164,13 +164,18 @@ impl QueryNode {
         let started = Instant::now();
         let result = async {
             // Parse query for pruning inputs. If the logical `metrics` table has not
-            // been registered yet, bootstrap with all known chunks and retry parsing.
+            // been registered yet, or is still the start-up placeholder (whose schema
+            // need not have the columns of the stored data), bootstrap with all known
+            // chunks and retry parsing.
             let (time_range, predicates) = match (
                 self.engine.extract_time_range(sql).await,
                 self.engine.extract_column_predicates(sql).await,
             ) {
                 (Ok(time_range), Ok(predicates)) => (time_range, predicates),
-                (Err(e), _) | (_, Err(e)) if is_table_not_found_error(&e) => {
+                (Err(e), _) | (_, Err(e))
+                    if is_table_not_found_error(&e)
+                        || self.engine.metrics_table_is_placeholder() =>
+                {
                     let bootstrap_chunks = self.metadata.list_chunks().await?;
                     let bootstrap_paths: Vec<String> = bootstrap_chunks
                         .iter()
